@@ -500,6 +500,15 @@ def h_invalid_ke(sit):
         p = world.Pair(dh_ike=('ecp256', 'ecp384'))
         p.init_req()
         encrypted = False
+    elif sit == 'init_ids_overlap':
+        # transform IDs are numbered per type: the offer holds integrity algorithms 14 (sha512) and 12 and PRF 5..7 - numbers that are also DH groups
+        p = world.Pair(dh_ike=('ecp521', 'modp4096'), ike_integ=('sha512', 'sha256'))
+        p.init_req()
+        encrypted = False
+    elif sit == 'child_ids_overlap':
+        p = world.Pair(child_dh=('ecp521', 'modp4096'), child_integ=('sha512', 'sha256'))
+        p.to_state('A', 'NEW_CHILD_REQ_SENT')
+        encrypted = True
     elif sit == 'child':
         p = world.Pair(child_dh=('ecp256', 'ecp384'))
         p.to_state('A', 'NEW_CHILD_REQ_SENT')
@@ -583,7 +592,7 @@ def build_instances(tier):
             inst.append(Instance(f'child_request {sit} offered_groups={n_dh}', h_child_request, (sit, n_dh), native=nat(h_child_request),
                                  must_reach=[('dh', lambda o: o == ['child_request', 'dh']), ('invalid_ke', lambda o: o == ['child_request', 'invalid_ke']),
                                              ('no_proposal', lambda o: o == ['child_request', 'no_proposal'])]))
-    for sit in ('init', 'child', 'rekey_child', 'rekey_ike'):
+    for sit in ('init', 'child', 'rekey_child', 'rekey_ike', 'init_ids_overlap', 'child_ids_overlap'):
         inst.append(Instance(f'invalid_ke {sit}', h_invalid_ke, (sit,), native=nat(h_invalid_ke),
                              must_reach=[('retry', lambda o: o == ['invalid_ke', 'retry']), ('refused', lambda o: o == ['invalid_ke', 'refused'])]))
     return inst
